@@ -3,7 +3,11 @@
 
 package leaves
 
-import "time"
+import (
+	"time"
+
+	"gopkg.in/src-d/hercules.v10/internal/core"
+)
 
 // VerifGroupSparseHistory exports groupSparseHistory.
 func VerifGroupSparseHistory(sampling, granularity int, history map[int]map[int]int64, lastTick int) ([][]int64, int) {
@@ -70,3 +74,20 @@ func VerifCouplesDict(r CouplesResult) []string { return r.reversedPeopleDict }
 
 // VerifDevsTickSize returns the tick size of a DevsResult in nanoseconds.
 func VerifDevsTickSize(r DevsResult) int64 { return int64(r.tickSize) }
+
+// VerifNewBurndownResult builds a BurndownResult including its unexported fields.
+func VerifNewBurndownResult(global DenseHistory, people []DenseHistory, matrix DenseHistory, dict []string,
+	tickSize int64, sampling, granularity int) BurndownResult {
+	return BurndownResult{GlobalHistory: global, PeopleHistories: people, PeopleMatrix: matrix,
+		reversedPeopleDict: dict, tickSize: time.Duration(tickSize), sampling: sampling, granularity: granularity}
+}
+
+// VerifBurndownDict returns the identity list of a BurndownResult.
+func VerifBurndownDict(r BurndownResult) []string { return r.reversedPeopleDict }
+
+// VerifMergeMatrices exports mergeMatrices.
+func VerifMergeMatrices(m1, m2 DenseHistory, granularity1, sampling1, granularity2, sampling2 int, tickSize int64,
+	c1, c2 *core.CommonAnalysisResult) DenseHistory {
+	return (&BurndownAnalysis{}).mergeMatrices(m1, m2, granularity1, sampling1, granularity2, sampling2,
+		time.Duration(tickSize), c1, c2)
+}
